@@ -822,7 +822,7 @@ pub fn run(args: &Args, report: &Report) -> (&'static str, bool, Vec<&'static st
     }
 
     let shards = args.by_tier(64usize, 256usize);
-    let sets_per_shard = args.by_tier(60u64, 120u64);
+    let sets_per_shard = args.by_tier(60u64, 40u64);
     {
         let ctx = ctx.clone();
         run_shards(report, args, shards, move |shard, shard_seed| {
